@@ -21,13 +21,21 @@ CHECKS = {
              "instance; TLC-simulated and seeded random call histories are executed on nine real backend configurations "
              "(in-memory, SQLite RDB, cached RDB, journal file with both locks, journal fakeredis, gRPC proxy over "
              "in-memory/RDB/journal) and TLC validates every recorded trace: each reply, each error class and the full "
-             "read-back state after every call must be a step of the contract.",
+             "read-back state after every call must be a step of the contract (histories include interleaved multi-study use, "
+             "repeated overwrites with non-finite values, templates edited by the caller after the call and point reads before "
+             "bulk reads). In addition every storage call that optuna's OWN test files make (test_storages, test_cached_storage, "
+             "test_trial; thorough: study/journal/pruner/sampler tests) is recorded by a pytest plugin outside the repository, "
+             "grouped per backend state and validated by TLC against the same specification (about 440 traces / 6800 calls "
+             "in quick).",
         note="Trusted: TLC, the projection of storage objects to tokens (bit-exact float pool, JSON-normalised attrs, "
              "creation-order ids with raw-id freshness decided in the spec). RDB = SQLite, Redis = fakeredis. Calls the "
-             "contract leaves undefined (D2, D10, mixed incompatible templates) are not generated. Known findings K2, K6.",
+             "contract leaves undefined (D2, D10, mixed incompatible templates) are not generated; attribute values are not "
+             "edited by the caller after set_*_attr (D16). Recorded test traces are cut (never judged) at overlapping calls, "
+             "foreign exceptions, copied objects, re-issued SQLite ids; gRPC-parametrised tests are not recorded. Known "
+             "findings K2, K6.",
         technique="TLA+ contract spec model-checked with TLC; TLC-generated and random histories replayed on 9 backends; "
-                  "recorded traces validated by TLC (trace validation)",
-        ref="DESIGN.md section 4 C01, section 3.1",
+                  "traces of the generated histories and of optuna's own test-suite validated by TLC (trace validation)",
+        ref="DESIGN.md section 4 C01, section 3.1, section 9.6",
     ),
     "C02": dict(
         text="StudyLoop.tla: state machine of one optimize() call (Ask/Run/Tell/Callback per worker, stop flag, catch, "
@@ -74,7 +82,8 @@ CHECKS = {
              "2-3 workers; the SQLite variant (read and write of the compare-and-set separate) and a wrong cursor must fail. "
              "Real executions: enqueue_trial / add_trial(WAITING) / ask / suggest / tell programs on nine backends, and 2-3 "
              "threads asking (one also enqueueing) concurrently under the line-level scheduler (in-memory, journal) and the "
-             "SQL-statement scheduler (SQLite); the queue is then drained. TLC validates every execution against "
+             "SQL-statement scheduler (SQLite), plus an asker preempted once at every yield point while another thread enqueues; "
+             "the queue is then drained. TLC validates every execution against "
              "WaitQueueTrace: no trial handed out twice, fixed parameter values verbatim, number and user attributes kept, "
              "nothing left in the queue.",
         note="Trusted: TLC, the unique tag attribute that identifies a queued trial, line-level preemption. ask() raising "
@@ -90,7 +99,8 @@ CHECKS = {
              "MutualExclusion, LogIntact, AckedSurvive/InOrder and sound reads exhaustively on bounded instances (and that "
              "the pre-repair design and the recorded finding K4 are reachable). The REAL code runs over a syscall-shim "
              "file system: TLC -simulate crash behaviours are replayed step by step (call kind and state compared), "
-             "random crash schedules and one execution per byte offset of a torn record are recorded, and TLC validates "
+             "random crash schedules and one execution per byte offset of a torn record (small records: every offset; records "
+             "of 4-9 KiB: around the block boundaries) are recorded, and TLC validates "
              "every execution against the property-level trace spec (acknowledged appends visible to survivors and fresh "
              "readers, torn record all-or-nothing, readers never fail).",
         note="Trusted: TLC, the shim's file-system semantics (atomic create/rename, chunked append), process death = no "
@@ -108,10 +118,13 @@ CHECKS = {
              "TLC checks StateIsFold, Converge, IssuerOnlyErrors, CursorMonotone exhaustively for 2 workers and all "
              "rejected kinds, and that a wrong cursor rule violates StateIsFold. Real histories: 2-3 JournalStorage workers "
              "on one JSON-serialising journal with snapshots (interval 2), raw replay objects driven with arbitrary batch "
-             "splits under a worker's identity, snapshot restores and fresh replays; after every step the object's full "
-             "projection must equal Project(Fold(first k records)), errors only at the issuer with the contract's class.",
+             "splits under a worker's identity, snapshot restores, fresh replays and forked copies; two threads sharing one "
+             "JournalStorage under the line-level scheduler (double preemptions) with every snapshot ever saved restored; "
+             "after every step the object's full projection must equal Project(Fold(first k records)), errors only at the "
+             "issuer with the contract's class.",
         note="Trusted: TLC, the projection shared with C01, the list backend standing for file/Redis (those are covered by "
-             "C01/C05/C07). Append+sync of one call is atomic here; fork-shared worker ids are not modelled.",
+             "C01/C05/C07). Append+sync of one call is atomic in the multi-worker family (the threaded family preempts inside "
+             "it); fork is emulated (same object, own replay state, another os.getpid()).",
         technique="TLA+ fold/refinement spec model-checked with TLC; multi-worker replay histories of the real code "
                   "validated by TLC (trace validation)",
         ref="DESIGN.md section 4 C06, section 3.4",
@@ -150,7 +163,8 @@ CHECKS = {
              "parameters, reports, states and values but never ids; FunctionalMC checks the memo lemmas. 46 seeded "
              "define-by-run programs (conditional branch, reports + should_prune, caught failures) x all 13 built-in "
              "sampler configurations x 9 pruners are each run on several configurations (in-memory twice, with another study "
-             "and split into 2-3 optimize calls, journal, SQLite, cached SQLite, gRPC over in-memory/journal/SQLite); all "
+             "and split into 2-3 optimize calls, journal, SQLite, cached SQLite, gRPC over in-memory/journal/SQLite, and in fresh "
+             "interpreters with other PYTHONHASHSEED values); all "
              "runs of a scenario form one trace and TLC rejects the first answer that contradicts an earlier run; "
              "copy_study to other backends must reproduce every trial field.",
         note="Thin: no sampler mathematics is modelled; weight is on the differential runs judged by TLC. GP kept because "
@@ -194,7 +208,8 @@ CHECKS = {
              "theorems model-checked over all histories of the bounded instances. Every history of the instances (all five "
              "states, duplicate and infinite values, 1-3 objectives with every direction vector, missing/violated "
              "constraints; count cross-checked with the spec's state count) plus random larger ones is built on real "
-             "backends (in-memory exhaustively; journal, SQLite, cached, gRPC sampled) in several arrival orders, and TLC "
+             "backends (in-memory exhaustively, behind 0-2 trials of an unrelated study; journal, SQLite, cached, gRPC sampled) in "
+             "several arrival orders, also on one long-lived Study object while trials arrive through a second one, and TLC "
              "judges best_trial, best_value, best_trials and storage.get_best_trial.",
         note="Trusted: TLC, small-integer value tokens. Which of several equal trials is returned is open; D8 "
              "(constraint-less trials), D11 (two documented errors at once).",
@@ -207,7 +222,9 @@ CHECKS = {
              "for every flipped subset) with the theorem Decide(dir, v) = Decide(flip(dir), -v) checked exhaustively by TLC "
              "(a model with the percentile side not flipped must fail). 126 scenarios per run (every single-objective "
              "sampler x pruner pair incl. GP, 24 two-objective scenarios with all flip subsets): mirrored real runs with "
-             "exactly negatable pairwise-distinct values form one trace with sign-normalised keys (Functional.tla); every "
+             "exactly negatable pairwise-distinct values (dyadic, and small integers where a value regularly equals the "
+             "interpolated percentile; Wilcoxon instance-style programs) form one trace with sign-normalised keys "
+             "(Functional.tla); every "
              "suggested value, should_prune answer, final state and best trial(s) must agree.",
         note="Thin for the sampler mathematics (covered by functional agreement of the mirrored runs). Known findings K11 "
              "(NSGA-III niching ignores direction) and K12 (NSGA-II crowding ties follow the raw last objective) matched by "
